@@ -36,10 +36,22 @@ if [ -f "$REPO/server/keepalive.go" ]; then
   fi
   PAIRS+=("server/verif_keepalive_overlay.go=$KASHIM")
 fi
+# save/region/mca.go: WriteSector stamps chunks with time.Now(); whether the stamp held in memory and the one in the
+# header stay equal can only be observed when two writes get different stamps. A copy of the file as it is in $REPO, with
+# nothing but `time.Now()` -> `verifNow(time.Now())`, replaces it for the build; the shim region_clock_export.go lets the
+# harness install a clock (without one verifNow returns its argument).
+MCACOPY="${OVJ%.json}.mca.go"
+MCAREPL=""
+if [ -f "$REPO/save/region/mca.go" ]; then
+  sed -E 's/time\.Now\(\)/verifNow(time.Now())/g' "$REPO/save/region/mca.go" > "$MCACOPY"
+  if grep -q 'verifNow(time.Now())' "$MCACOPY"; then MCAREPL="$MCACOPY"; else rm -f "$MCACOPY"; fi
+  PAIRS+=("save/region/verif_clock_overlay.go=region_clock_export.go")
+fi
 {
   echo '{"Replace":{'
   sep=""
   if [ -n "$KAREPL" ]; then printf ' "%s": "%s"' "$REPO/server/keepalive.go" "$KAREPL"; sep=$',\n'; fi
+  if [ -n "$MCAREPL" ]; then printf '%s "%s": "%s"' "$sep" "$REPO/save/region/mca.go" "$MCAREPL"; sep=$',\n'; fi
   for p in "${PAIRS[@]}"; do
     dst=${p%%=*}; src=${p#*=}
     [ -f "$HERE/$src" ] || { echo "overlay source $HERE/$src missing" >&2; exit 2; }
